@@ -56,7 +56,7 @@ type jobRes struct {
 	ID     int    `json:"id"`
 	Out    string `json:"out"` // value | error | panic
 	Detail string `json:"detail"`
-	Re     string `json:"re,omitempty"` // "panic: ..." if re-encoding the decoded value panics (information only)
+	Re     string `json:"re,omitempty"`  // "panic: ..." if re-encoding the decoded value panics (information only)
 	MemMB  int    `json:"mem,omitempty"` // memory obtained from the OS after the job, if large
 	Bye    bool   `json:"bye,omitempty"` // the child exits after this job (memory is not returned to the OS)
 }
